@@ -326,6 +326,7 @@ func ruleJRN3(w *World, r *Report) {
 		seenKey := map[string]bool{}
 		for _, j := range findInstrs(fn, callsTo(jw)) {
 			jc := j.(*ssa.Call)
+			cmdName := journaledCommand(jc)
 			fail := failureEdges(fn, jc)
 			reach := reachableBlocks(fn, posOf(j), fail)
 			nsite := 0
@@ -348,18 +349,18 @@ func ruleJRN3(w *World, r *Report) {
 						continue
 					}
 					if why, ok := jrn3Exceptions[q+":"+src.name]; ok {
-						r.Ok("JRN-3", fmt.Sprintf("%s:error-after-journal:%s", q, src.name), w.Pos(src.pos), "exception: "+why)
+						r.Ok("JRN-3", fmt.Sprintf("%s:error-after-journal[%s]:%s", q, cmdName, src.name), w.Pos(src.pos), "exception: "+why)
 						r.Except(q + ":" + src.name + ": " + why)
-						seenKey[fmt.Sprintf("%s:error-after-journal:%s", q, src.name)] = true
+						seenKey[fmt.Sprintf("%s:error-after-journal[%s]:%s", q, cmdName, src.name)] = true
 						continue
 					}
-					key := fmt.Sprintf("%s:error-after-journal:%s", q, src.name)
+					key := fmt.Sprintf("%s:error-after-journal[%s]:%s", q, cmdName, src.name)
 					if seenKey[key] {
 						continue
 					}
 					seenKey[key] = true
 					nsite++
-					r.Bad("JRN-3", key, w.Pos(src.pos), fmt.Sprintf("%s can return the error of %s AFTER its command was journaled: the caller sees a rejection, but the command is in the log and takes effect on the next restart", q, src.name), w.Pos(j.Pos()), w.Pos(rt.Pos()))
+					r.Bad("JRN-3", key, w.Pos(src.pos), fmt.Sprintf("%s can return the error of %s AFTER its %s command was journaled: the caller sees a rejection, but the command is in the log and takes effect on the next restart", q, src.name, cmdName), w.Pos(j.Pos()), w.Pos(rt.Pos()))
 				}
 			}
 			_ = nsite
@@ -368,6 +369,58 @@ func ruleJRN3(w *World, r *Report) {
 			r.Ok("JRN-3", q+":no-error-after-journal", w.Pos(fi.Decl.Pos()), "no rejection can be returned once a command was journaled")
 		}
 	}
+}
+
+// journaledCommand: the constant command name of the frame handed to the journal write (FormatCommand("NAME", …)),
+// followed through phis and single-assignment locals; "?" when it is not a constant.
+func journaledCommand(jc *ssa.Call) string {
+	names := map[string]bool{}
+	seen := map[ssa.Value]bool{}
+	var rec func(v ssa.Value, depth int)
+	rec = func(v ssa.Value, depth int) {
+		if v == nil || seen[v] || depth > 8 {
+			return
+		}
+		seen[v] = true
+		switch x := v.(type) {
+		case *ssa.Call:
+			if o := calleeObj(&x.Call); o != nil && o.Name() == "FormatCommand" && len(x.Call.Args) > 0 {
+				if s, ok := constString(x.Call.Args[0]); ok {
+					names[s] = true
+					return
+				}
+			}
+			names["?"] = true
+		case *ssa.Phi:
+			for _, e := range x.Edges {
+				rec(e, depth+1)
+			}
+		case *ssa.UnOp:
+			if al, ok := x.X.(*ssa.Alloc); ok {
+				for _, ref := range *al.Referrers() {
+					if st, ok := ref.(*ssa.Store); ok && st.Addr == al {
+						rec(st.Val, depth+1)
+					}
+				}
+				return
+			}
+			names["?"] = true
+		default:
+			names["?"] = true
+		}
+	}
+	if len(jc.Call.Args) > 0 {
+		rec(jc.Call.Args[len(jc.Call.Args)-1], 0)
+	}
+	var out []string
+	for n := range names {
+		out = append(out, n)
+	}
+	sort.Strings(out)
+	if len(out) == 0 {
+		return "?"
+	}
+	return strings.Join(out, "+")
 }
 
 type errOrigin struct {
